@@ -2,12 +2,14 @@
 C01 — normalisation never loses or invents note content (structural half).
 The theorems follow a note from the reader's blocks through the section builder, the arena and the
 projector to the rendered blocks and show that its content tokens (`Spec/Tokens.lean`) are
-unchanged.  Not covered here (DESIGN.md §5): the pulldown-cmark event stream → reader blocks
-step and the step rendered *text* → what pulldown-cmark reads back; both are exercised by the
+unchanged.  `reader_content` covers the step before that, from the pulldown-cmark event stream to the reader's blocks,
+for the flat text (`Spec/Flat.lean`).  Not covered here (DESIGN.md §5): Markdown text → event stream
+(pulldown-cmark itself) and rendered *text* → what pulldown-cmark reads back; both are exercised by the
 correspondence run and the end-to-end oracle.
 Helper lemmas live in `IweModel/Lemmas/Tokens.lean`.
 -/
 import IweModel.Lemmas.Tokens
+import IweModel.Lemmas.ReaderContent
 
 namespace Iwe.C01
 open Iwe
@@ -67,6 +69,49 @@ theorem pipeline_tokens (dir : String) (bs : List DBlock) (f : List BTree) (pre 
     simp only [Arena.collOpt, Arena.firstPtr] at h
     rw [h]
     exact project_tokens dir 0 pre.length (t :: ts)
+
+/-- **the reader keeps every piece of text the parser reports, once and in order**: on a complete event stream
+that follows the parser's grammar (`Spec/Events.lean`) and has no `Text` inside an HTML block, the flat text of
+the blocks `MarkdownEventsReader::read` returns — paragraphs, headings, items, quotes, table cells, code
+blocks, code spans, math, inline HTML, at any nesting — is the concatenation of the texts of the events, the
+front-matter block excepted.  (Before the repair of finding D41 this was false: text after a code block of a
+tight list item was dropped.) -/
+theorem reader_content (content : Position.Bytes) (evs : List Reader.Ev) (bs : List DBlock) (m : Option String)
+    (hwf : Events.wellFormed evs = true) (hfree : Flat.htmlTextFree [] evs = true)
+    (h : Reader.read content evs = .ok (bs, m)) : Flat.blocks bs = Flat.events false evs := by
+  obtain ⟨st, hs, hstack, hinl, _⟩ := ReaderTotal.run_delivers_core content evs hwf
+  simp only [Reader.read, hs, Except.ok.injEq, Prod.mk.injEq] at h
+  have hfs : Events.run [] evs = some [] := by simpa [Events.wellFormed] using hwf
+  have hc := ReaderContent.run_content content evs ReaderTotal.rel_init hfs hfree hs
+  rw [← h.1]
+  simpa [ReaderContent.state, ReaderContent.stack, ReaderContent.opens, hstack, hinl, Flat.blocks] using hc
+
+/-- the HTML-block exception is needed: with `Text` inside an HTML block of a quote the reader appends the text to
+the last block of the quote, and a code block silently swallows it (model-level witness; pulldown-cmark emits
+such a stream only for finding D21's indented HTML blocks) -/
+theorem reader_content_html_text_counterexample :
+    let evs : List Reader.Ev :=
+      [.startQuote 0 9, .startCode 2 5 none, .text 2 3 "c", .endCode, .startHtml, .text 6 7 "x", .endHtml, .endQuote]
+    Events.wellFormed evs = true ∧ Flat.htmlTextFree [] evs = false ∧
+      (match Reader.read [] evs with
+       | .ok (bs, _) => Flat.blocks bs == "c" && Flat.events false evs == "cx"
+       | .error _ => false) = true := by
+  decide
+
+/-- non-vacuity of `reader_content`: a tight item with text under a code block (finding D41's shape), a table
+and a front-matter block -/
+example :
+    let evs : List Reader.Ev :=
+      [.startMeta, .text 0 1 "t: 1", .endMeta,
+       .startList false, .startItem, .text 0 1 "a", .startCode 2 5 none, .text 2 3 "c", .endCode,
+       .text 6 7 "b", .startInline .emph 8 9, .text 8 9 "e", .endInline, .endItem, .endList,
+       .startTable 10 20 [.none], .startRow, .startCell, .text 10 11 "h", .startRow, .startCell, .code 12 13 "k",
+       .endTable]
+    Events.wellFormed evs = true ∧ Flat.htmlTextFree [] evs = true ∧
+      (match Reader.read [] evs with
+       | .ok (bs, m) => Flat.blocks bs == "acbehk" && m == some "t: 1"
+       | .error _ => false) = true := by
+  decide
 
 /-- front-matter is re-emitted verbatim in front of the body -/
 theorem frontmatter_verbatim (m body : String) :
